@@ -31,4 +31,11 @@ impl Bytes {
     ensures r@ == bv(*self)
 //@ end
 }
+impl Bytes {
+//@ extract fn concat from src/classic/clvm/__type_compatibility__.rs in impl Bytes
+//@ sig r
+    requires bv(*self).len() + bv(*b).len() <= usize::MAX
+    ensures bv(r) == bv(*self) + bv(*b)
+//@ end
+}
 
